@@ -33,6 +33,13 @@ func (g Guard) Seen(a, b interface{}) bool {
 	return false
 }
 
+// Done tells the guard that the comparison of the given values has completed. Only comparisons in progress
+// are assumed to be true: a completed comparison (it may have ended with false) must be made again when
+// the same values are encountered later.
+func (g Guard) Done(a, b interface{}) {
+	delete(g, visit{a, b})
+}
+
 // Equals will compare two values for equality. If the first value implements the Equality interface, then
 // the that interface is used. If the first value is a primitive, then the primitive will be compared using
 // ==. The default behavior is to delegate to reflect.DeepEqual.
